@@ -69,6 +69,21 @@ async fn replay_verify() {
     write_manifest(&dir, &m);
     assert!(verifier.verify(&dir).await.is_err(), "a manifest with an ADDED entry under the signature of the original manifest is accepted");
 
+    // EVERY listed file is checked, whatever directory it is listed under (the ancillary archive also carries the immutable
+    // trio following the last certified one: the signed manifest is its only protection)
+    let dir = temp_dir_create!();
+    std::fs::create_dir_all(dir.join("immutable")).unwrap();
+    write_file(&dir.join("immutable/00003.chunk"), "chunk");
+    let mut m = manifest_for(&dir, None);
+    let mut data = m.signable_manifest.data.clone();
+    data.insert(PathBuf::from("immutable/00003.chunk"), sha("chunk"));
+    m = AncillaryFilesManifest::new_without_signature(data);
+    m.set_signature(signer.sign(&m.compute_hash()));
+    write_manifest(&dir, &m);
+    verifier.verify(&dir).await.expect("a valid manifest listing an immutable file is rejected");
+    write_file(&dir.join("immutable/00003.chunk"), "forged chunk");
+    assert!(verifier.verify(&dir).await.is_err(), "a listed file under immutable/ whose content does not hash to the listed hash is accepted");
+
     // no manifest at all
     let dir = temp_dir_create!();
     write_file(&dir.join("ledger"), "x");
